@@ -249,7 +249,12 @@ impl Trapped {
     /// Location with the line number stripped (stable signatures).
     pub fn file(&self) -> String {
         let f = self.loc.rsplit_once(':').map(|x| x.0).unwrap_or(&self.loc);
-        // strip the absolute prefix of the repo
+        // strip the absolute prefix of the repository (wherever a copy of it lives)
+        for c in ["lorawan-encoding/", "lorawan-device/", "lorawan-macros/", "lora-modulation/", "lora-phy/"] {
+            if let Some(i) = f.find(c) {
+                return f[i..].to_string();
+            }
+        }
         f.trim_start_matches("/repo/").to_string()
     }
     pub fn kind(&self) -> String {
